@@ -144,6 +144,10 @@ class Fold(ast.NodeTransformer):
         op = n.ops[0]
         if a[0] and not b[0] and isinstance(op, (ast.In, ast.NotIn)) and self.repo is not None and isinstance(n.comparators[0], (ast.Name, ast.Attribute)):
             rows = _table(self.repo, self.f, n.comparators[0])          # membership in a module / class level constant table
+            if rows is None and isinstance(n.comparators[0], ast.Name):
+                d = _set_display_local(self.f, n.comparators[0].id)      # .. or in a local bound once to a display of constants
+                if d is not None:
+                    rows = d
             if rows is not None:
                 vals = [_const_value(r) for r in rows]
                 if all(v[0] for v in vals):
@@ -996,6 +1000,34 @@ def _display_local(f, name):
         return None
     if cnt == 1 and isinstance(val, (ast.Tuple, ast.List)) and not any(isinstance(x, ast.Starred) for x in val.elts):
         return val
+    return None
+
+
+def _set_display_local(f, name):
+    """elements of the set / frozenset / tuple / list display of constants a local is bound to (exactly one binding, never mutated,
+    never passed on whole except to `in`), or None"""
+    cnt, val = 0, None
+    par = {}
+    for n in ast.walk(f.node):
+        for c in ast.iter_child_nodes(n):
+            par[c] = n
+    for n in walk_own(f.node):
+        if isinstance(n, ast.Name) and n.id == name:
+            if isinstance(n.ctx, (ast.Store, ast.Del)):
+                cnt += 1
+                p = par.get(n)
+                val = p.value if isinstance(p, ast.Assign) and len(p.targets) == 1 and p.targets[0] is n else None
+            else:
+                p = par.get(n)
+                if not (isinstance(p, ast.Compare) and len(p.ops) == 1 and isinstance(p.ops[0], (ast.In, ast.NotIn)) and p.comparators[0] is n):
+                    return None
+    a = f.node.args
+    if name in {p.arg for p in a.posonlyargs + a.args + a.kwonlyargs} or cnt != 1 or val is None:
+        return None
+    if isinstance(val, ast.Call) and U(val.func) in ("set", "frozenset", "tuple", "list") and len(val.args) == 1 and not val.keywords:
+        val = val.args[0]
+    if isinstance(val, (ast.Set, ast.Tuple, ast.List)) and val.elts and all(isinstance(x, ast.Constant) for x in val.elts):
+        return list(val.elts)
     return None
 
 
